@@ -378,6 +378,43 @@ func (c *Ctx) symxRun() *simpleVerdict {
 	newScanner := c.MustFunc("io", "", "NewStringScanner")
 	scT := newScanner.Signature.Results().At(0).Type()
 	tokT := types.NewPointer(c.SSA["tokenizers"].Type("Token").Type())
+	// staged histories (see the workers): S1 = nothing, every word of one or two characters, pairs of them; w = every
+	// word of up to three characters that S1 does not contain
+	type stagedHist struct {
+		s1 []string
+		w  string
+	}
+	var staged []stagedHist
+	{
+		var short []string
+		for _, wd := range words {
+			if len(wd) <= 2 {
+				short = append(short, wd)
+			}
+		}
+		s1s := [][]string{nil}
+		for i, a := range short {
+			s1s = append(s1s, []string{a})
+			for j, b := range short {
+				// quick: a third of the pairs, in alternating registration order
+				if i < j && (c.Tier == "thorough" || (i+j)%3 == 0) {
+					if (i+j)%2 == 0 {
+						s1s = append(s1s, []string{a, b})
+					} else {
+						s1s = append(s1s, []string{b, a})
+					}
+				}
+			}
+		}
+		for _, s1 := range s1s {
+			for _, wd := range words {
+				if len(s1) > 0 && s1[0] == wd || len(s1) > 1 && s1[1] == wd {
+					continue
+				}
+				staged = append(staged, stagedHist{s1, wd})
+			}
+		}
+	}
 	nw := 12
 	parts := make([]*simpleVerdict, nw)
 	var wg sync.WaitGroup
@@ -388,6 +425,67 @@ func (c *Ctx) symxRun() *simpleVerdict {
 			v := &simpleVerdict{}
 			parts[w] = v
 			m := newMach(c)
+			// readOne: one NextToken on a fresh scanner over the input, compared with the longest-match model of the set
+			readOne := func(state mv, set []symReg, regs []string, in string, sample bool) {
+				m.steps = 0
+				v.runs++
+				if sample {
+					noteSample("SYM.model/sets", fmt.Sprintf("%s on input %q", strings.Join(regs, "; "), in))
+				}
+				sc, out := m.Call(newScanner, in)
+				if out.kind != "ok" {
+					v.undec = "NewStringScanner: " + out.why
+					return
+				}
+				tok, out := m.Call(c.lookupMethod(st, "NextToken"), state, mIface{t: scT, v: sc}, mNil)
+				where := fmt.Sprintf("after %s, NextToken on %q", strings.Join(regs, "; "), in)
+				if len(regs) == 0 {
+					where = fmt.Sprintf("with no symbol registered, NextToken on %q", in)
+				}
+				if out.kind == "panic" {
+					v.bad = where + " panics: " + out.why
+					return
+				}
+				if out.kind != "ok" {
+					v.undec = where + ": " + out.why
+					return
+				}
+				val, o1 := m.Call(c.lookupMethod(tokT, "Value"), tok)
+				typ, o2 := m.Call(c.lookupMethod(tokT, "Type"), tok)
+				if o1.kind != "ok" || o2.kind != "ok" {
+					v.undec = where + ": token accessors " + o1.why + o2.why
+					return
+				}
+				// what is left in the scanner
+				var rest strings.Builder
+				for k := 0; k < 10; k++ {
+					r, o := m.Call(c.lookupMethod(scT, "Read"), sc)
+					if o.kind != "ok" {
+						break
+					}
+					n, _ := r.(int64)
+					if n < 0 {
+						break
+					}
+					rest.WriteRune(rune(n))
+				}
+				wantVal, wantTyp, typed := symModel(set, in)
+				gv, _ := val.(string)
+				gt, _ := typ.(int64)
+				if v.bad != "" {
+					return
+				}
+				switch {
+				case gv != wantVal:
+					v.bad = fmt.Sprintf("%s returns %q; the longest registered symbol that is a prefix of the input (or else its first character) is %q", where, gv, wantVal)
+				case gv+rest.String() != in:
+					v.bad = fmt.Sprintf("%s returns %q and leaves %q in the scanner: it does not consume exactly the symbol", where, gv, rest.String())
+				case typed && gt != wantTyp:
+					v.bad = fmt.Sprintf("%s returns %q with token type %d; the symbol was registered with type %d", where, gv, gt, wantTyp)
+				case !typed && gt != symbolType:
+					v.bad = fmt.Sprintf("%s returns the unregistered character %q with token type %d; a single character that is no registered symbol is a plain Symbol token (%d) whatever longer symbols start with it", where, gv, gt, symbolType)
+				}
+			}
 			for i := w; i < len(sets)+len(specials); i += nw {
 				var set []symReg
 				inputs := inputs
@@ -444,65 +542,61 @@ func (c *Ctx) symxRun() *simpleVerdict {
 						set = append(append([]symReg{}, set...), later...)
 					}
 					for _, in := range inputs {
-						m.steps = 0
-						v.runs++
-						if i%50 == 0 {
-							noteSample("SYM.model/sets", fmt.Sprintf("%s on input %q", strings.Join(regs, "; "), in))
-						}
-						sc, out := m.Call(newScanner, in)
-						if out.kind != "ok" {
-							v.undec = "NewStringScanner: " + out.why
-							return
-						}
-						tok, out := m.Call(c.lookupMethod(st, "NextToken"), state, mIface{t: scT, v: sc}, mNil)
-						where := fmt.Sprintf("after %s, NextToken on %q", strings.Join(regs, "; "), in)
-						if len(regs) == 0 {
-							where = fmt.Sprintf("with no symbol registered, NextToken on %q", in)
-						}
-						if out.kind == "panic" {
-							v.bad = where + " panics: " + out.why
-							continue
-						}
-						if out.kind != "ok" {
-							v.undec = where + ": " + out.why
-							continue
-						}
-						val, o1 := m.Call(c.lookupMethod(tokT, "Value"), tok)
-						typ, o2 := m.Call(c.lookupMethod(tokT, "Type"), tok)
-						if o1.kind != "ok" || o2.kind != "ok" {
-							v.undec = where + ": token accessors " + o1.why + o2.why
-							continue
-						}
-						// what is left in the scanner
-						var rest strings.Builder
-						for k := 0; k < 10; k++ {
-							r, o := m.Call(c.lookupMethod(scT, "Read"), sc)
-							if o.kind != "ok" {
-								break
-							}
-							n, _ := r.(int64)
-							if n < 0 {
-								break
-							}
-							rest.WriteRune(rune(n))
-						}
-						wantVal, wantTyp, typed := symModel(set, in)
-						gv, _ := val.(string)
-						gt, _ := typ.(int64)
-						if v.bad != "" {
-							continue
-						}
-						switch {
-						case gv != wantVal:
-							v.bad = fmt.Sprintf("%s returns %q; the longest registered symbol that is a prefix of the input (or else its first character) is %q", where, gv, wantVal)
-						case gv+rest.String() != in:
-							v.bad = fmt.Sprintf("%s returns %q and leaves %q in the scanner: it does not consume exactly the symbol", where, gv, rest.String())
-						case typed && gt != wantTyp:
-							v.bad = fmt.Sprintf("%s returns %q with token type %d; the symbol was registered with type %d", where, gv, gt, wantTyp)
-						case !typed && gt != symbolType:
-							v.bad = fmt.Sprintf("%s returns the unregistered character %q with token type %d; a single character that is no registered symbol is a plain Symbol token (%d) whatever longer symbols start with it", where, gv, gt, symbolType)
-						}
+						readOne(state, set, regs, in, i%50 == 0)
 					}
+				}
+			}
+			// staged histories: with S1 registered the inputs that start with a word w are read (the table looks up
+			// exactly the characters of w, at the root and below, and misses where S1 does not continue), then w is
+			// registered and the same inputs are read again at once, w itself first; then the same with w extended
+			// by one more character. Every read must agree with the longest-match model over what is registered then.
+			for hi := w; hi < len(staged); hi += nw {
+				h := staged[hi]
+				m.steps = 0
+				state, out := m.Call(ctor)
+				if out.kind != "ok" {
+					v.undec = "NewGenericSymbolState: " + out.why
+					return
+				}
+				var set []symReg
+				var regs []string
+				add := func(text string, typ int64, note string) bool {
+					regs = append(regs, fmt.Sprintf("%sAdd(%q,%d)", note, text, typ))
+					if _, out := m.Call(c.lookupMethod(st, "Add"), state, text, typ); out.kind != "ok" {
+						if out.kind == "panic" && v.bad == "" {
+							v.bad = strings.Join(regs, "; ") + " panics: " + out.why
+						} else if out.kind != "panic" {
+							v.undec = strings.Join(regs, "; ") + ": " + out.why
+						}
+						return false
+					}
+					set = append(set, symReg{text, typ})
+					return true
+				}
+				okAll := true
+				for k, t := range h.s1 {
+					okAll = okAll && add(t, int64(101+k), "")
+				}
+				word := h.w
+				for stage := 0; okAll && stage < 2 && len([]rune(word)) <= 3; stage++ {
+					known := false
+					for _, r := range set {
+						known = known || r.text == word
+					}
+					if known {
+						break // (which type a symbol registered twice reports is not stated)
+					}
+					ins := []string{word + alpha[(hi+stage)%len(alpha)], word + "a", word}
+					for _, in := range ins {
+						readOne(state, set, regs, in, hi%97 == 0)
+					}
+					if !add(word, int64(103+stage), fmt.Sprintf("(after reading %q, %q and %q) ", ins[0], ins[1], ins[2])) {
+						break
+					}
+					for k := len(ins) - 1; k >= 0; k-- {
+						readOne(state, set, regs, ins[k], false)
+					}
+					word += alpha[(hi/3+stage)%len(alpha)]
 				}
 			}
 		}(w)
@@ -544,7 +638,7 @@ func init() {
 			return emitSimple(c, "MAP.model", "utilities.CharReferenceMap#latest-covering-registration", c.Pos(c.MustFunc("tokenizers/utilities", "", "NewCharReferenceMap").Pos()), c.mapxRun(), "lookups agree with the list model")
 		}})
 	register(&Rule{ID: "SYM.model", Floor: 1,
-		Doc: "GenericSymbolState evaluated abstractly (Add, NextToken over a StringScanner) for symbol sets over {<,=,>} of lengths 1..3 (singletons, ordered pairs, larger prefix-sharing sets in rotated and reversed registration orders, distinct token types) and every input up to length 4 over {<,=,>,a}: the token is the longest registered prefix (or the first character), with that symbol's type, and exactly its characters are consumed",
+		Doc: "GenericSymbolState evaluated abstractly (Add, NextToken over a StringScanner) for symbol sets over {<,=,>} of lengths 1..3 (singletons, ordered pairs, larger prefix-sharing sets in rotated and reversed registration orders, distinct token types) and every input up to length 4 over {<,=,>,a}: the token is the longest registered prefix (or the first character), with that symbol's type, and exactly its characters are consumed; staged histories: S1 registered, inputs starting with w read, w registered, the same inputs read again at once",
 		Run: func(c *Ctx) []*Obligation {
 			return emitSimple(c, "SYM.model", "generic.GenericSymbolState#longest-registered-symbol", c.Pos(c.MustFunc("tokenizers/generic", "", "NewGenericSymbolState").Pos()), c.symxRun(), "tokens agree with the longest-match model")
 		}})
